@@ -289,6 +289,15 @@ func c03Random(c *caseCtx) {
 		}
 		c.count("near_equal_owa_weights", 1)
 	}
+	if c.idx%16 == 12 {
+		mp := g.M["methodParameters"].(M)
+		other := M{}
+		for k := range mp["weights"].(M) {
+			other[k] = float64(c.rng.Intn(9)) / 8
+		}
+		mp[[]string{"Weights", "WEIGHTS", "weightS"}[c.rng.Intn(3)]] = other // an unknown key: ignored like any other
+		c.count("with_a_key_that_looks_like_weights", 1)
+	}
 	if c.idx%16 == 5 {
 		// large magnitudes (1e6 .. 1e13 times the usual values): the 1e-8 rounding must not go through a narrower type
 		f := math.Pow(10, float64(6+c.rng.Intn(8)))
